@@ -142,3 +142,22 @@ theorem implUpdate_eq_absorb (B : Nat) (hB : 0 < B) (f : D → List α → D) (s
 
 
 end IsalVerif
+
+namespace IsalVerif
+variable {α D : Type}
+
+/-- moving a prefix of the incoming data into the partial buffer does not change the result -/
+theorem absorb_move (B : Nat) (f : D → List α → D) (d : D) (part data : List α) (k : Nat) :
+    absorb B f ⟨d, part ++ data.take k⟩ (data.drop k) = absorb B f ⟨d, part⟩ data := by
+  simp only [absorb, List.append_assoc, List.take_append_drop]
+
+/-- a partial buffer that holds exactly one block is hashed first -/
+theorem absorb_full_block (B : Nat) (hB : 0 < B) (f : D → List α → D) (d : D) (blk data : List α)
+    (hb : blk.length = B) : absorb B f ⟨f d blk, []⟩ data = absorb B f ⟨d, blk⟩ data := by
+  have h1 : absorb B f ⟨d, blk⟩ [] = ⟨f d blk, []⟩ := by
+    simp only [absorb, List.append_nil, hb, Nat.div_self hB, blocks]
+    have : blk.take B = blk := List.take_of_length_le (by omega)
+    simp [this, ← hb]
+  rw [← h1, absorb_append B hB]; simp
+
+end IsalVerif
